@@ -206,6 +206,8 @@ def prelude(need_model=True, need_grits=False):
         os.makedirs(BIN, exist_ok=True)
         # 1. the Go probe, linked against /repo's working tree (build tag verif)
         write_if_changed(os.path.join(HARNESS, "go.sum"), open(os.path.join(REPO, "go.sum")).read())
+        gm = os.path.join(HARNESS, "go.mod")
+        write_if_changed(gm, re.sub(r"replace grits => \S+", "replace grits => " + REPO, open(gm).read()))
         rc, out = go_build(HARNESS, b.probe)
         if rc != 0:
             b.probe_error = out[-4000:]
